@@ -245,15 +245,16 @@ theorem yes_carries_certificate (s : DS.DSymData) (f : Facts) (hf : FactsOf s f)
 /-- **yes_cover_is_a_branchfree_oriented_covering.**  For a valid D-symbol (`ValidSym`: far
     operations commute) the cover behind a `Yes` of the model is, by Props/C15
     (`ptc_result_is_oriented`, `ptc_result_is_branchfree`), oriented, a valid complete symbol with
-    branching number 1 on every adjacent 2-orbit. -/
+    branching number 1 on EVERY pair of indices (adjacent 2-orbits, and the non-adjacent pairs
+    (0,2), (0,3), (1,3): the two operations never agree on a chamber). -/
 theorem yes_cover_is_a_branchfree_oriented_covering (s : DS.DSymData) (f : Facts) (hf : FactsOf s f)
     (hs : DS.ValidSym s) (hsz : 1 ≤ s.size)
     (hyes : decideVerdict f = .yes) :
     ∃ cov, D3.pseudoToroidalCover s = .ok (some cov) ∧ cov.view.isOriented = true ∧
       DS.ValidSym cov ∧ cov.isCompletePartial = true ∧
-      ∀ i d, i < 3 → 1 ≤ d → d ≤ cov.size → cov.vPartial i (i + 1) d = .ok (some 1) := by
+      ∀ i j d, i ≤ 3 → j ≤ 3 → 1 ≤ d → d ≤ cov.size → cov.vPartial i j d = .ok (some 1) := by
   obtain ⟨_, _, _, cov, _, _, _, _, ho, _, _⟩ := yes_carries_certificate s f hf hs.toValidTables hsz hyes
-  obtain ⟨hb, hv, hc, _⟩ := C15.ptc_result_is_branchfree s cov hs hsz ho
+  obtain ⟨_, hb, hv, hc, _⟩ := C15.ptc_result_is_branchfree s cov hs hsz ho
   exact ⟨cov, ho, C15.ptc_result_is_oriented s cov hs.toValidTables hsz ho, hv, hc, hb⟩
 
 /-- **yes_cover_group_is_Z3_presented.**  For a valid connected D-symbol,
@@ -281,7 +282,8 @@ theorem yes_cover_group_is_Z3_presented (s : DS.DSymData) (f : Facts) (hf : Fact
     * a **finite covering** of `s`: `rows(t)·|oc|` chambers, `|oc| ∈ {|s|, 2|s|}`, valid complete
       symbol, the projection `d ↦ (d−1) mod |s| + 1` commutes with every operation
       (`C15.CoverFacts`), all degrees those of the oriented cover;
-    * **oriented** and **branch-free** on every adjacent 2-orbit;
+    * **oriented** and **branch-free**: branching number 1 at every chamber for every pair of
+      indices, adjacent or not;
     * with **fundamental group isomorphic to a subgroup `K` of finite index** `rows(t)` of the
       orbifold group of the oriented cover (the stabiliser of row 0 of the monodromy action), and to
       the presented group `⟨gens | srels⟩` whose **abelian invariants are `[0, 0, 0]`** (model value
@@ -299,7 +301,7 @@ theorem yes_certificate_sound (s : DS.DSymData) (f : Facts) (hf : FactsOf s f)
       D3.pseudoToroidalCover s = .ok (some cov) ∧
       C15.CoverFacts s cov ∧
       cov.view.isOriented = true ∧ DS.ValidSym cov ∧ cov.isCompletePartial = true ∧
-      (∀ i d, i < 3 → 1 ≤ d → d ≤ cov.size → cov.vPartial i (i + 1) d = .ok (some 1)) ∧
+      (∀ i j d, i ≤ 3 → j ≤ 3 → 1 ≤ d → d ≤ cov.size → cov.vPartial i j d = .ok (some 1)) ∧
       ∃ (oc : DS.DSymData) (fg : FG.FundGroup) (t : D3.Tab) (hsoc : DS.ValidSym oc) (hdim : 1 ≤ oc.dim)
         (hfg : FG.fundamentalGroup oc = .ok fg) (hV : CosetP.Valid t fg.nrGenerators fg.relators [])
         (gens srels : List (List Int)),
@@ -315,7 +317,7 @@ theorem yes_certificate_sound (s : DS.DSymData) (f : Facts) (hf : FactsOf s f)
         Nonempty (Abelianization (FGP.TGroup cov) ≃* Multiplicative (Fin 3 → ℤ)) := by
   obtain ⟨h3, h4, inv, cov, hinv, hmem, hw, hr, ho, hcf, _⟩ :=
     yes_carries_certificate s f hf hs.toValidTables hsz hyes
-  obtain ⟨hb, hv, hc, _⟩ := C15.ptc_result_is_branchfree s cov hs hsz ho
+  obtain ⟨_, hb, hv, hc, _⟩ := C15.ptc_result_is_branchfree s cov hs hsz ho
   obtain ⟨oc, fg, t, hsoc, hdim, hfg, hV, gens, srels, hoc, hsize, hidx, heK, heP, _, _, hai, hexp⟩ :=
     C15.ptc_cover_group_is_selected_subgroup s cov hs hsz hconn ho
   exact ⟨h3, h4, inv, cov, hinv, hmem, hw, hr, ho, hcf,
